@@ -116,6 +116,8 @@ def distribute_from_split_pool(tx: Any, fee: int | str) -> int:
             split_with_remainder(remaining_coins, zero_count), zero_txs_out
         ):
             tx_out.coin_value = value
+    elif sum(tx_out.coin_value for tx_out in tx.txs_out) > sum(spendable.coin_value for spendable in tx.unspents):
+        raise ValueError("insufficient inputs for outputs")
     return zero_count
 
 
